@@ -26,11 +26,12 @@ CLAIM = dict(
           "claim). NaN/inf inputs are outside the property."),
     technique="Lean 4 theorems over a hand-written model + differential correspondence + Lean spec as oracle")
 
-THEOREMS = ["dtypes_cover", "fp_sat", "spec_unique", "fp_total", "fp_mono", "fp_range", "fp_lsb",
-            "fp_inverse", "exact53_of_small", "inverse_counterexample",
-            "array_eq_scalar", "array64_eq_scalar_below_bound", "array64_defect",
-            "deprecated_twos_complement", "deprecated_no_assert", "deprecated64_defect",
-            "fix_to_float_eq"]
+THEOREMS = ["dtypes_cover", "fp_total", "fp_sat", "spec_unique", "spec_range", "fp_range", "fp_lsb", "fp_mono",
+            "exact53_of_small", "fp_inverse", "inverse_counterexample",
+            "array_eq_scalar", "array64_eq_scalar_below_bound", "array64_defect_all", "array64_defect",
+            "array_eq_scalar_repaired",
+            "deprecated_no_assert", "deprecated_twos_complement", "deprecated_twos_complement_repaired",
+            "deprecated64_defect", "fix_to_float_eq"]
 
 RULE = ("one case = one format (signed, n_bits, n_frac) with 6-24 doubles built around the format: exactly at, one and "
         "two ulps around min-1, min, max, max+1 (scaled), in-range values with fractional parts, far beyond, "
@@ -666,8 +667,8 @@ def run(ctx):
         "0 <= n_frac <= n_bits - signed only (ValueError otherwise, modelled)",
     ]
     rng = ctx.rng
-    n_conv = ctx.scale(1300, 62000)
-    n_inv = ctx.scale(400, 8000)
+    n_conv = ctx.scale(2500, 62000)
+    n_inv = ctx.scale(700, 8000)
     if ctx.extended:
         n_conv *= 4
         n_inv *= 4
